@@ -7,7 +7,7 @@ import math
 import numpy as np
 from hypothesis import strategies as st
 
-from ..core import SubCheck, Violation, cut, require
+from ..core import other_environment_body, SubCheck, Violation, cut, require
 from ..oracles import tables as otab
 from ..rng_script import ScriptExhausted, scripted
 from ..strategies import bfloat, near, ulp_step
@@ -370,6 +370,19 @@ outside_e = st.one_of(
     st.floats(ulp_step(12.0, 1), 30.0),
 )
 
+REJECT_ST = (
+        st.integers(1, 5).flatmap(
+            lambda k: st.fixed_dictionaries(
+                {
+                    "version": version_st,
+                    "log_e": st.lists(st.one_of(outside_e, outside_e, log_e_st), min_size=k, max_size=k),
+                    "beta": st.lists(beta_st, min_size=k, max_size=k),
+                    "u": st.lists(st.floats(0.01, 0.99), min_size=k, max_size=k),
+                }
+            )
+        )
+)
+
 SUBCHECKS = [
     SubCheck(
         "inverse",
@@ -390,16 +403,7 @@ SUBCHECKS = [
     ),
     SubCheck(
         "rejects",
-        st.integers(1, 5).flatmap(
-            lambda k: st.fixed_dictionaries(
-                {
-                    "version": version_st,
-                    "log_e": st.lists(st.one_of(outside_e, outside_e, log_e_st), min_size=k, max_size=k),
-                    "beta": st.lists(beta_st, min_size=k, max_size=k),
-                    "u": st.lists(st.floats(0.01, 0.99), min_size=k, max_size=k),
-                }
-            )
-        ),
+        REJECT_ST,
         body_rejects,
         lambda labels: "raised" in labels,
         {"quick": 300, "thorough": 10000},
@@ -428,5 +432,14 @@ SUBCHECKS = [
         {"quick": 1},
         doc="internal generator on 70001 events (more sizes in the thorough tier): each event's z is the inverse transform of a distinct delivered number; explicit u reproduces it",
         exhaustive=_internal_large_cases,
+    ),
+    SubCheck(
+        "rejects_other_environment",
+        st.fixed_dictionaries({"cases": st.lists(REJECT_ST, min_size=8, max_size=16), "env": st.sampled_from([0, 1])}),
+        other_environment_body("nssverif.props.c04", "rejects", [{"PYTHONOPTIMIZE": "1"}, {"PYTHONOPTIMIZE": "2", "LC_ALL": "C", "PYTHONUTF8": "0", "PYTHONCOERCECLOCALE": "0"}]),
+        lambda labels: True,
+        {"quick": 2, "thorough": 40},
+        doc="generated rejection cases re-run in a fresh interpreter under python -O / -OO (assert statements stripped): out-of-table energies are still refused",
+        shrink=False,
     ),
 ]
